@@ -65,10 +65,31 @@ pub fn run(case: &str, st: &mut Stats) -> Outcome {
     let w: Vec<(u64, u64)> = (0..total).map(|v| (tail[3 + 2 * v].parse().unwrap(), tail[4 + 2 * v].parse().unwrap())).collect();
     let b = AnyBuilder::new(&prog);
     let mut dummy = Stats::default();
+    let mut fails = vec![];
+    // histories: if the program extends the order at run time, the diagrams built before the first
+    // new variable are smoothed over all variables that exist then (oracle only); the final
+    // smoothing below, after the extension, must not be affected by those earlier calls
+    if let Some(k) = prog.ops.iter().position(|o| matches!(o, Op::NewVar(_))) {
+        if k > 0 {
+            let mut pre = prog.clone();
+            pre.ops.truncate(k);
+            let pp = exec(&b, &pre, &mut dummy);
+            let now = prog.nvars;
+            for (j, q) in pp.iter().enumerate().rev().take(3) {
+                let sq = b.smooth(*q, now);
+                if table_of(sq, total) != table_of(*q, total) {
+                    fails.push(format!("before the first new variable: smooth(pool[{j}], {now}) denotes a different function than its argument"));
+                }
+                if let Some(v) = path_violation(&b, sq, 0, now, None) {
+                    fails.push(format!("before the first new variable: smooth(pool[{j}], {now}): {v}"));
+                }
+            }
+            st.bump("smoothed_before_order_extension");
+        }
+    }
     let pool = exec(&b, &prog, &mut dummy);
     let p = pool[target];
     let s = b.smooth(p, nsm);
-    let mut fails = vec![];
     let tp = table_of(p, total);
     let ts = table_of(s, total);
     if tp != ts {
